@@ -47,11 +47,16 @@ func buildSweeps(thorough bool) []sweep {
 	// content axis: body byte 0 (the byte a probe peeks at) - pattern byte 0x00, a letter, LF, CR, blank, 0xFF
 	firstAll := []int{-1, 'a', '\n', '\r', ' ', 0xFF}
 	firstOthers := firstAll[1:]
+	// context axis: cancellation of the request does not change what the stream holds
+	ctxPlain := []string{ctxCancellable, ctxCancelBefore, ctxExpired, ctxCancelAfter}
+	ctxBlock := []string{ctxCancellable, ctxCancelBefore, ctxExpired, ctxCancelBlocked}
 	if thorough {
 		return []sweep{
 			{name: "small-bodies/undeclared/every-chunking", bodies: small, modes: undeclared, maxLen: 5, bound: -1, zeroBudget: 2},
 			{name: "small-bodies/undeclared/first-byte", bodies: []int{1, 2, 3}, modes: undeclared, maxLen: 5, bound: 2, zeroBudget: 1, firsts: firstOthers},
 			{name: "buffer-sized-bodies/undeclared/first-byte", bodies: big, modes: undeclared, maxLen: 4, bound: 1, zeroBudget: 1, firsts: firstOthers},
+			{name: "cancellation/blocking-first-read", bodies: []int{0, 1, 3, 4097}, modes: undeclared[1:], maxLen: 2, bound: 1, zeroBudget: 0, ctxs: ctxBlock, blocking: true, waitMs: 200},
+			{name: "cancellation/non-blocking", bodies: []int{-1, 0, 1, 3, 4097}, modes: undeclared, maxLen: 4, bound: 1, zeroBudget: 1, ctxs: ctxPlain},
 			{name: "two-requests/undeclared", nreq: 2, multi: collideNil, maxLen: 5, bound: 1, zeroBudget: 1},
 			{name: "three-requests/undeclared", nreq: 3, multi: collide[:4], maxLen: 4, bound: 1, zeroBudget: 0},
 			{name: "buffer-sized-bodies/undeclared", bodies: big, modes: undeclared, maxLen: 5, bound: 2, zeroBudget: 1},
@@ -66,6 +71,8 @@ func buildSweeps(thorough bool) []sweep {
 	return []sweep{
 		{name: "small-bodies/undeclared", bodies: small, modes: undeclared, maxLen: 5, bound: 2, zeroBudget: 1},
 		{name: "small-bodies/undeclared/first-byte", bodies: []int{1, 2, 3}, modes: undeclared, maxLen: 4, bound: 1, zeroBudget: 1, firsts: firstOthers},
+		{name: "cancellation/blocking-first-read", bodies: []int{0, 3, 4097}, modes: undeclared[1:], maxLen: 1, bound: 0, zeroBudget: 0, ctxs: ctxBlock, blocking: true, waitMs: 100},
+		{name: "cancellation/non-blocking", bodies: []int{-1, 0, 1, 3}, modes: undeclared[1:], maxLen: 3, bound: 1, zeroBudget: 1, ctxs: ctxPlain},
 		{name: "two-requests/undeclared", nreq: 2, multi: collide, maxLen: 4, bound: 1, zeroBudget: 1},
 		{name: "buffer-sized-bodies/undeclared", bodies: big[1:], modes: undeclared, maxLen: 4, bound: 1, zeroBudget: 1, firsts: firstAll},
 		{name: "declared-length", bodies: declBodies, modes: declared, maxLen: 3, bound: 1, zeroBudget: 1},
@@ -119,9 +126,17 @@ func buildPlans(thorough bool) []*plan {
 						if bl < 1 || len(firsts) == 0 {
 							firsts = []int{-1}
 						}
+						ctxs := sw.ctxs
+						if len(ctxs) == 0 {
+							ctxs = []string{""}
+						}
 						for _, fb := range firsts {
-							cfgID++
-							p.cfgs = append(p.cfgs, []*config{newConfigFirst(cfgID, bl, t, md, 0, fb)})
+							for _, cx := range ctxs {
+								cfgID++
+								c := newConfigFirst(cfgID, bl, t, md, 0, fb)
+								c.ctx, c.block, c.waitMs = cx, sw.blocking && cx != "", sw.waitMs
+								p.cfgs = append(p.cfgs, []*config{c})
+							}
 						}
 					}
 				}
@@ -622,6 +637,14 @@ func main() {
 			info["terminals"] = []string{"EOF", "ERR(sticky, after the last byte)"}
 			info["modes"] = sw.modes
 			info["extended_alphabet"] = sw.extended
+			if len(sw.ctxs) > 0 {
+				info["request_context"] = sw.ctxs
+				info["first_read_of_first_probe_blocks"] = sw.blocking
+				if sw.blocking {
+					info["histories_start_with"] = "HasBody (the probe whose underlying Read parks), then every history of the stated lengths"
+					info["wait_for_early_return_ms(stimulus)"] = sw.waitMs
+				}
+			}
 			if len(sw.firsts) > 0 {
 				info["first_body_byte(-1 = pattern byte 0x00), bodies of length >= 1"] = sw.firsts
 			}
@@ -643,6 +666,7 @@ func main() {
 		}
 	}
 	r.Set("body_content", "byte i = i mod 251 (B, C: shifted by 83, 166); content axis on byte 0, the byte a probe peeks at: {0x00, 'a', LF, CR, space, 0xFF} where a sweep lists first_body_byte")
+	r.Set("cancellation", "sweeps 'cancellation/*': requests with a cancellable context {never cancelled, cancelled before the first operation, deadline already expired, cancelled while the first probe's underlying Read is parked, cancelled right after the first probe}; in 'blocking-first-read' the stream parks that Read (channels: 'Read entered' / 'release' / 'delivered') and the harness waits wait_ms for an early return before releasing it (a stimulus, never an oracle). Clauses: the text's (answer = a byte can be read, whatever the context; bytes and terminal intact) plus: no Read reaches or completes on the underlying stream while no body operation is in progress, no goroutine executing request.go code when a probe has returned (runtime.Stack, settle loop of 2 s), HasBody returns within 30 s of the release")
 	r.Set("operations", opNames[:])
 	r.Set("epilogue", "after every history, for every request in turn: Read(4096) until the terminal condition, Read(1), Close, Read(1), Close, Read(4096) - all judged by the same oracle")
 	r.Set("stream_choice_point", "every Read the underlying stream receives before it has delivered its terminal: full | 1 byte | all but one | all + terminal together | (0,nil); every Close it receives: nil | error (the stream counts as closed either way)")
